@@ -1780,6 +1780,800 @@ Section SemSteps.
   Qed.
 End SemSteps.
 
+(* ====================================================================================== *)
+(* Part 4: recovery -- TransactionalMemory::new + Database::new on a crash image           *)
+(* ====================================================================================== *)
+
+(* abstract evaluation of one slot-selection leaf of a pure header window *)
+Definition fqb (vq lt_qp lt_pq : bool) (pq : bool) : bool := if pq then vq && negb lt_qp else vq && lt_pq.
+Definition rleafb (t0 p0 p vq lt_qp lt_pq same : bool) (tg pg : bool) : bool :=
+  let tried := negb t0 && fqb vq lt_qp lt_pq (xorb p0 p) && negb same in
+  if tg then negb (xorb pg p) else negb (fqb vq lt_qp lt_pq (xorb pg p)) || same || tried.
+
+Lemma rleaf_ok d aw gb :
+  pure_hdr aw = true -> d_rq d = None ->
+  rleafb (flag (dgod d) TWO_PHASE_COMMIT) (flag (dgod d) PRIMARY_BIT) (d_p d) (d_vq d)
+         (slot_txid (dQ d) <? slot_txid (dP d)) (slot_txid (dP d) <? slot_txid (dQ d)) (bytes_eqb (dQ d) (dP d))
+         (flag gb TWO_PHASE_COMMIT) (flag gb PRIMARY_BIT) = true ->
+  forall qc, leaf_ok d aw gb qc = true.
+Proof.
+  intros Hp Hr. unfold rleafb, fqb, leaf_ok, old_stat, first_is_q, names_q. rewrite Hp, Hr.
+  destruct (flag (dgod d) TWO_PHASE_COMMIT), (flag (dgod d) PRIMARY_BIT), (d_p d), (d_vq d),
+    (slot_txid (dQ d) <? slot_txid (dP d)), (slot_txid (dP d) <? slot_txid (dQ d)), (bytes_eqb (dQ d) (dP d)),
+    (flag gb TWO_PHASE_COMMIT), (flag gb PRIMARY_BIT); cbn; intros E qc; destruct qc; cbn; auto; discriminate.
+Qed.
+
+
+(* the abstract booleans of a summary *)
+Definition lqb (d : dsum) : bool := slot_txid (dQ d) <? slot_txid (dP d).
+Definition lpb (d : dsum) : bool := slot_txid (dP d) <? slot_txid (dQ d).
+Definition sameb (d : dsum) : bool := bytes_eqb (dQ d) (dP d).
+Definition rleaf (d : dsum) (tg pg : bool) : bool :=
+  rleafb (flag (dgod d) TWO_PHASE_COMMIT) (flag (dgod d) PRIMARY_BIT) (d_p d) (d_vq d) (lqb d) (lpb d) (sameb d) tg pg.
+
+Lemma lq_lp_excl d : lqb d && lpb d = false.
+Proof.
+  unfold lqb, lpb. destruct (slot_txid (dQ d) <? slot_txid (dP d)) eqn:A; auto.
+  apply N.ltb_lt in A. apply N.ltb_ge. lia.
+Qed.
+Lemma same_lq d : sameb d = true -> lqb d = false /\ lpb d = false.
+Proof. unfold sameb, lqb, lpb. intros E. apply bytes_eqb_eq in E. rewrite E, N.ltb_irrefl. auto. Qed.
+
+(* "basic" facts of a summary that every pure header window needs *)
+Record basic (d : dsum) : Prop := mkBasic {
+  b_hlen : length (d_hdr d) = HDR_LEN;
+  b_magic : magic_at (hget (d_hdr d)) = MAGICNUMBER;
+  b_len : len_okb d (d_len d) = true;
+  b_rp : within (d_rp d) (d_len d) = true;
+  b_vq : slot_version (dQ d) = FILE_FORMAT_VERSION3
+}.
+
+Lemma rec_window d m' :
+  basic d -> d_rq d = None ->
+  hm_wfb m' = true -> geom_at (hget (d_hdr d)) = hm_geom m' -> dP d = hm_slot m' (d_p d) ->
+  (flag (dgod d) RECOVERY_REQUIRED = true /\ hm_rr m' = true
+   \/ layout_at (hget (d_hdr d)) = hm_layout m' /\ stored_sane (hget (d_hdr d)) = true
+      /\ stored_len (hget (d_hdr d)) = d_len d) ->
+  rleaf d (flag (dgod d) TWO_PHASE_COMMIT) (flag (dgod d) PRIMARY_BIT) = true ->
+  rleaf d (hm_2pc m') (hm_prim m') = true ->
+  window_okb d (map abs ([] ++ [hdr_write m'])) true = true.
+Proof.
+  intros [Hhl Hmg Hln Hrp HvQ] Hrq Wm Eg EP Hrr L1 L2.
+  pose proof (hm_wfb_wf _ Wm) as Wf. assert (Wpre : win_okb d [] = true) by reflexivity.
+  assert (Hpure : pure_hdr (map abs ([] ++ [hdr_write m'])) = true).
+  { unfold pure_hdr. now rewrite (oh_pages [] m' Wf), (oh_setlens [] m' Wf). }
+  apply window_hdr_ok; auto.
+  - destruct Hrr as [[A B] | (A & B & C)].
+    + apply rr_both; auto. rewrite (oh_wgod d [] m' Wf Wpre). unfold hm_god. now rewrite flag_rr.
+    + apply rr_clean; auto.
+      * now rewrite (oh_setlens [] m' Wf).
+      * rewrite (oh_hdrs d [] m' Wf Wpre). intros h [<- | []]. rewrite (layout_enc m' Wf). symmetry. exact A.
+  - apply c_leaves_intro; intros qc _.
+    + apply rleaf_ok; auto.
+    + rewrite (oh_wgod d [] m' Wf Wpre). apply rleaf_ok; auto.
+      unfold hm_god. rewrite flag_2pc, flag_prim. exact L2.
+Qed.
+
+(* the summary after such a window *)
+Definition sumS (m : hdrm) (len : N) (p : bool) (rp : list range) (vq : bool) : dsum :=
+  mkDsum (enc_hdr m) len p rp vq None.
+
+Lemma sumS_basic d m' p' rp' vq' :
+  basic d -> hm_wfb m' = true -> geom_at (hget (d_hdr d)) = hm_geom m' -> within rp' (d_len d) = true ->
+  basic (sumS m' (d_len d) p' rp' vq').
+Proof.
+  intros [Hhl Hmg Hln Hrp HvQ] Wm Eg Hw. pose proof (hm_wfb_wf _ Wm) as Wf. constructor; unfold sumS; cbn [d_hdr d_len d_rp].
+  - apply (enc_length _ Wf).
+  - apply magic_enc.
+  - rewrite <- Hln. apply len_okb_ext. cbn [d_hdr]. rewrite (geom_enc _ Wf). symmetry. exact Eg.
+  - exact Hw.
+  - unfold dQ. cbn [d_hdr d_p]. rewrite (slot_enc _ _ Wf). apply hm_wfb_versions. exact Wm.
+Qed.
+
+Lemma sumS_P m len p rp vq : hm_wfb m = true -> dP (sumS m len p rp vq) = hm_slot m p.
+Proof. intros W. unfold dP, sumS. cbn [d_hdr d_p]. apply slot_enc. now apply hm_wfb_wf. Qed.
+Lemma sumS_Q m len p rp vq : hm_wfb m = true -> dQ (sumS m len p rp vq) = hm_slot m (negb p).
+Proof. intros W. unfold dQ, sumS. cbn [d_hdr d_p]. apply slot_enc. now apply hm_wfb_wf. Qed.
+Lemma sumS_god m len p rp vq : dgod (sumS m len p rp vq) = hm_god m.
+Proof. reflexivity. Qed.
+
+(* slot selection of recovery on the abstract booleans: the index of the slot select_primary_slot names *)
+Definition sel_primb (t0 p0 p vq lq lp : bool) : option bool :=
+  let cp := if Bool.eqb p0 p then true else vq in
+  let cs := if Bool.eqb (negb p0) p then true else vq in
+  let lt_ps := if Bool.eqb p0 p then lp else lq in
+  if t0 then (if cp then Some p0 else None)
+  else if negb cp then (if cs then Some (negb p0) else None)
+  else if lt_ps && cs then Some (negb p0) else Some p0.
+
+(* consistency of the abstract booleans of a summary *)
+Definition consb (lq lp same : bool) : bool := negb (lq && lp) && (negb same || (negb lq && negb lp)).
+
+Lemma cons_of d : consb (lqb d) (lpb d) (sameb d) = true.
+Proof.
+  unfold consb. rewrite (lq_lp_excl d). cbn [negb andb]. destruct (sameb d) eqn:E; [|reflexivity].
+  destruct (same_lq d E) as [A B]. now rewrite A, B.
+Qed.
+
+(* a god byte with the 2PC flag that names the served slot *)
+Lemma B_2pc t0 p0 p vq lq lp same : rleafb t0 p0 p vq lq lp same true p = true.
+Proof. unfold rleafb. now rewrite xorb_nilpotent. Qed.
+
+(* recovery of a 1PC image: every god byte recovery writes before the repair commit is harmless *)
+Lemma B_1pc p0 p vq lq lp same prim1 :
+  consb lq lp same = true -> (same = true -> p = p0) ->
+  sel_primb false p0 p vq lq lp = Some prim1 ->
+  rleafb false p0 p vq lq lp same false p0 = true
+  /\ rleafb false p0 p vq lq lp same false prim1 = true
+  /\ rleafb false p0 p vq lq lp same false p = true
+  /\ rleafb false prim1 p vq lq lp same false prim1 = true
+  /\ rleafb false prim1 p vq lq lp same false p = true
+  /\ rleafb false p p vq lq lp same false p = true.
+Proof.
+  destruct p0, p, vq, lq, lp, same, prim1; cbn; intros A B C; try discriminate;
+    try (specialize (B eq_refl); discriminate); repeat split; reflexivity.
+Qed.
+
+(* between the two flushes of the repair commit, and after it *)
+Lemma B_commit_1pc p : rleafb false p (negb p) true true false false false p = true
+                       /\ rleafb false p (negb p) true true false false true (negb p) = true.
+Proof. destruct p; split; reflexivity. Qed.
+
+Lemma run_commit_eq_acc a two q rng pgs shrink :
+  hm_wfb (cm1 (a_st a) q shrink) = true -> pages_okb (d_rp (p_d (a_st a))) pgs = true ->
+  a_st (run_commit a two q rng pgs shrink) = commit_post (a_st a) two q rng shrink
+  /\ a_ws (run_commit a two q rng pgs shrink) = a_ws a ++ commit_windows (a_st a) two q rng pgs shrink.
+Proof. destruct a as [st ws ops]. cbn [a_st a_ws]. apply run_commit_eq. Qed.
+
+(* the second flush of a two-phase commit whose first flush left a trusted 2PC primary in place:
+   the god byte moves to the slot that is durable, verified and untouched *)
+Lemma promote_window_yes d m' rq :
+  basic d -> d_rq d = Some rq -> d_vq d = true -> within rq (d_len d) = true ->
+  flag (dgod d) TWO_PHASE_COMMIT = true -> names_q d (dgod d) = false ->
+  hm_wfb m' = true -> geom_at (hget (d_hdr d)) = hm_geom m' -> dP d = hm_slot m' (d_p d) ->
+  dQ d = hm_slot m' (negb (d_p d)) -> hm_2pc m' = true ->
+  layout_at (hget (d_hdr d)) = hm_layout m' -> stored_sane (hget (d_hdr d)) = true ->
+  stored_len (hget (d_hdr d)) = d_len d ->
+  window_okb d (map abs ([] ++ [hdr_write m'])) true = true.
+Proof.
+  intros [Hhl Hmg Hln Hrp HvQ] Hrq Hvq Hw Et Hn Wm Eg EP EQ Et' El S1 S2.
+  pose proof (hm_wfb_wf _ Wm) as Wf. assert (Wpre : win_okb d [] = true) by reflexivity.
+  apply window_hdr_ok; auto.
+  - apply rr_clean; auto.
+    + now rewrite (oh_setlens [] m' Wf).
+    + rewrite (oh_hdrs d [] m' Wf Wpre). intros h [<- | []]. rewrite (layout_enc m' Wf). symmetry. exact El.
+  - apply c_leaves_intro; intros qc [-> | Hne].
+    + apply leaf_names_p; auto.
+    + exfalso. apply Hne. rewrite (oh_wq d [] m' Wf Wpre). symmetry. exact EQ.
+    + rewrite (oh_wgod d [] m' Wf Wpre). apply (leaf_2pc_yes _ _ _ rq); auto.
+      * unfold hm_god. now rewrite flag_2pc.
+      * unfold untouched. rewrite (oh_pages [] m' Wf). cbn [map pages flat_map forallb andb].
+        unfold lens_of. rewrite (oh_setlens [] m' Wf). cbn [map setlens flat_map forallb andb].
+        fold (within rq (d_len d)). now rewrite Hw.
+    + exfalso. apply Hne. rewrite (oh_wq d [] m' Wf Wpre). symmetry. exact EQ.
+Qed.
+
+Lemma txid_neq_bytes a b : slot_txid a <> slot_txid b -> bytes_eqb a b = false.
+Proof. intros Hn. apply bytes_eqb_neq. intros ->. contradiction. Qed.
+
+Lemma eqb_false_negb (a b : bool) : Bool.eqb a b = false -> a = negb b.
+Proof. destruct a, b; simpl; congruence. Qed.
+
+Section Rec.
+  Variables (d : dsum) (o : roracle).
+  Hypothesis Hok : rec_okb d o = true.
+  Local Notation g := (hget (d_hdr d)).
+  Local Notation m0 := (parse_hdr (d_hdr d)).
+  Local Notation p := (d_p d).
+  Local Notation p0 := (flag (dgod d) PRIMARY_BIT).
+  Local Notation t0 := (flag (dgod d) TWO_PHASE_COMMIT).
+  Local Notation r0 := (flag (dgod d) RECOVERY_REQUIRED).
+  Local Notation L := (if r0 then ro_lay o else layout_at g).
+  Local Notation m0' := (if r0 then set_layout m0 (ro_lay o) else m0).
+
+  Lemma k_facts :
+    length (d_hdr d) = HDR_LEN /\ magic_at g = MAGICNUMBER
+    /\ slot_wfb (dP d) = true /\ slot_wfb (dQ d) = true
+    /\ len_okb d (d_len d) = true /\ within (d_rp d) (d_len d) = true /\ d_rq d = None
+    /\ slot_wfb (ro_q o) = true /\ slot_txid (dP d) < slot_txid (ro_q o)
+    /\ (if r0 then lay_okb m0 (ro_lay o) (d_len d) = true
+        else stored_sane g = true /\ stored_len g = d_len d)
+    /\ (dP d = dQ d -> p = p0) /\ (t0 = true -> p = p0).
+  Proof.
+    unfold rec_okb, rec_hdr_okb, rec_side_okb in Hok. rewrite !andb_true_iff, Nat.eqb_eq, bytes_eqb_eq, N.ltb_lt in Hok.
+    destruct Hok as (((((A1 & A2) & A3) & A4) & A12) & ((((((A5 & A6) & A7) & A8) & A9) & A10) & A11)).
+    repeat split; auto.
+    - destruct (d_rq d); [discriminate|reflexivity].
+    - change (hm_rr m0) with r0 in A10. destruct r0; auto.
+      apply andb_true_iff in A10 as [X Y]. apply N.eqb_eq in Y. auto.
+    - intros E. apply orb_true_iff in A11 as [X | X].
+      + apply negb_true_iff, bytes_eqb_neq in X. contradiction.
+      + now apply Bool.eqb_prop in X.
+    - intros E. change (hm_2pc m0) with t0 in A12. rewrite E in A12. cbn [negb orb] in A12. now apply Bool.eqb_prop in A12.
+  Qed.
+
+  Lemma k_basic : basic d.
+  Proof.
+    destruct k_facts as (A1 & A2 & A3 & A4 & A5 & A6 & _). constructor; auto.
+    apply slot_wfb_spec in A4. tauto.
+  Qed.
+
+  Lemma k_slot_p : hm_slot m0 p = dP d.
+  Proof. unfold dP. destruct p; reflexivity. Qed.
+  Lemma k_slot_q : hm_slot m0 (negb p) = dQ d.
+  Proof. unfold dQ. destruct p; reflexivity. Qed.
+
+  Lemma k_wf0 : hm_wfb m0 = true.
+  Proof.
+    destruct k_facts as (_ & _ & A3 & A4 & _). unfold hm_wfb. cbn [parse_hdr hm_geom hm_layout hm_s0 hm_s1].
+    unfold geom_at, layout_at. rewrite !rd_length, !Nat.eqb_refl. cbn [andb].
+    unfold dP, dQ in A3, A4. destruct p; cbn [negb] in A3, A4; now rewrite A3, A4.
+  Qed.
+
+  Lemma k_layL : length L = LAYOUT_LEN.
+  Proof.
+    destruct k_facts as (_ & _ & _ & _ & _ & _ & _ & _ & _ & A10 & _).
+    destruct r0; [exact (lay_okb_len _ _ _ A10) | unfold layout_at; apply rd_length].
+  Qed.
+
+  Lemma k_wf0' : hm_wfb m0' = true.
+  Proof.
+    destruct r0 eqn:E; [|exact k_wf0]. apply wfb_set_layout; [exact k_wf0|].
+    pose proof k_layL as X. rewrite E in X. exact X.
+  Qed.
+
+  (* any header with this database's geometry and the (recomputed) region counts describes the file *)
+  Lemma k_stored g' :
+    geom_at g' = geom_at g -> layout_at g' = L -> stored_sane g' = true /\ stored_len g' = d_len d.
+  Proof.
+    intros Eg El. destruct k_facts as (_ & _ & _ & _ & _ & _ & _ & _ & _ & A10 & _).
+    destruct r0.
+    - apply (lay_okb_spec _ _ _ (hm_wfb_wf _ k_wf0)) in A10 as [_ X]. apply X; auto.
+    - destruct A10 as [S1 S2]. destruct (stored_ext g' g Eg El) as [T1 T2]. now rewrite T1, T2.
+  Qed.
+
+  Lemma k_lay m : hm_wfb m = true -> hm_geom m = geom_at g -> lay_okb m L (d_len d) = true.
+  Proof.
+    intros W Eg. apply (lay_okb_spec _ _ _ (hm_wfb_wf _ W)). split; [exact k_layL|].
+    intros g' E1 E2. apply k_stored; [now rewrite E1 | exact E2].
+  Qed.
+
+  Lemma k_sel m1 :
+    select_primary m0' (if Bool.eqb p0 p then true else d_vq d)
+                       (if Bool.eqb (negb p0) p then true else d_vq d) = Some m1 ->
+    sel_primb t0 p0 p (d_vq d) (lqb d) (lpb d) = Some (hm_prim m1)
+    /\ hm_wfb m1 = true /\ hm_geom m1 = geom_at g /\ hm_layout m1 = L /\ hm_rr m1 = r0 /\ hm_2pc m1 = t0
+    /\ hm_slot m1 p = dP d
+    /\ (hm_slot m1 (negb p) = dQ d /\ (t0 = true -> lqb d = true)
+        \/ (t0 = true /\ lqb d = false /\ hm_slot m1 (negb p) = dP d)).
+  Proof.
+    destruct k_facts as (_ & _ & A3 & A4 & _ & _ & _ & _ & _ & _ & _ & A12).
+    pose proof k_wf0' as W. pose proof k_slot_p as SP. pose proof k_slot_q as SQ.
+    assert (G : hm_geom m0' = geom_at g) by (destruct r0; reflexivity).
+    assert (LL : hm_layout m0' = L) by (destruct r0; reflexivity).
+    assert (RR : hm_rr m0' = r0) by (destruct r0 eqn:E; cbn [set_layout hm_rr parse_hdr]; exact E).
+    assert (TT : hm_2pc m0' = t0) by (destruct r0; reflexivity).
+    assert (PP : hm_prim m0' = p0) by (destruct r0; reflexivity).
+    assert (SS : forall k, hm_slot m0' k = hm_slot m0 k) by (intros k; destruct r0; reflexivity).
+    unfold select_primary, sel_primb, lqb, lpb. rewrite TT, PP, !SS.
+    destruct t0 eqn:Et.
+    - (* trusted 2PC primary: it is the served slot *)
+      pose proof (A12 eq_refl) as E12. rewrite E12 in *. rewrite eqb_reflx, SP, SQ.
+      destruct (slot_txid (dQ d) <? slot_txid (dP d)) eqn:Elq; intros E; injection E as <-.
+      + rewrite PP, G, LL, RR, TT, !SS, SP, SQ. repeat split; auto; left; split; auto.
+      + rewrite prim_set_slot, geom_set_slot, lay_set_slot, rr_set_slot, PP, G, LL, RR.
+        rewrite slot_set_same.
+        assert (X : hm_slot (set_slot m0' (negb p0) (dP d)) p0 = dP d).
+        { rewrite <- (negb_involutive p0) at 2. rewrite slot_set_other, negb_involutive, SS. exact SP. }
+        rewrite X. repeat split; auto.
+        * apply wfb_set_slot; auto.
+        * destruct (negb p0); exact TT.
+    - destruct (Bool.eqb p0 p) eqn:Ep.
+      + apply Bool.eqb_prop in Ep. rewrite Ep, SP, SQ.
+        replace (Bool.eqb (negb p) p) with false by (destruct p; reflexivity). cbn [negb].
+        destruct ((slot_txid (dP d) <? slot_txid (dQ d)) && d_vq d); intros E; injection E as <-;
+          cbn [swap_prim hm_prim hm_geom hm_layout hm_rr hm_2pc]; rewrite ?PP, ?G, ?LL, ?RR, ?TT, ?Ep;
+          change (hm_slot (swap_prim m0') p) with (hm_slot m0' p);
+          change (hm_slot (swap_prim m0') (negb p)) with (hm_slot m0' (negb p));
+          rewrite ?SS, ?SP, ?SQ; repeat split; auto; left; split; auto; intros X; discriminate X.
+      + pose proof (eqb_false_negb _ _ Ep) as Ep'.
+        rewrite Ep', negb_involutive, SP, SQ, eqb_reflx.
+        destruct (d_vq d) eqn:Ev; cbn [negb].
+        * destruct ((slot_txid (dQ d) <? slot_txid (dP d)) && true); intros E; injection E as <-;
+            cbn [swap_prim hm_prim hm_geom hm_layout hm_rr hm_2pc]; rewrite ?PP, ?G, ?LL, ?RR, ?TT, ?Ep', ?negb_involutive;
+            change (hm_slot (swap_prim m0') p) with (hm_slot m0' p);
+            change (hm_slot (swap_prim m0') (negb p)) with (hm_slot m0' (negb p));
+            rewrite ?SS, ?SP, ?SQ; repeat split; auto; left; split; auto; intros X; discriminate X.
+        * intros E; injection E as <-.
+          cbn [swap_prim hm_prim hm_geom hm_layout hm_rr hm_2pc]; rewrite ?PP, ?G, ?LL, ?RR, ?TT, ?Ep', ?negb_involutive;
+            change (hm_slot (swap_prim m0') p) with (hm_slot m0' p);
+            change (hm_slot (swap_prim m0') (negb p)) with (hm_slot m0' (negb p));
+            rewrite ?SS, ?SP, ?SQ; repeat split; auto; left; split; auto; intros X; discriminate X.
+  Qed.
+
+  (* the summary dA of the image TransactionalMemory::new leaves behind (d itself when nothing was written),
+     with m1 in memory *)
+  Record AF (dA : dsum) (m1 : hdrm) (primA : bool) : Prop := mkAF {
+    af_basic : basic dA;
+    af_rq : d_rq dA = None;
+    af_len : d_len dA = d_len d;
+    af_p : d_p dA = p;
+    af_rp : d_rp dA = d_rp d;
+    af_geom : geom_at (hget (d_hdr dA)) = geom_at g;
+    af_lay : layout_at (hget (d_hdr dA)) = L;
+    af_P : dP dA = dP d;
+    af_Q : t0 = false -> dQ dA = hm_slot m1 (negb p);
+    af_t : flag (dgod dA) TWO_PHASE_COMMIT = t0;
+    af_r : flag (dgod dA) RECOVERY_REQUIRED = r0;
+    af_prim : flag (dgod dA) PRIMARY_BIT = primA
+  }.
+
+  Record M1 (m1 : hdrm) : Prop := mkM1 {
+    m_wf : hm_wfb m1 = true;
+    m_geom : hm_geom m1 = geom_at g;
+    m_lay : hm_layout m1 = L;
+    m_rr : hm_rr m1 = r0;
+    m_t : hm_2pc m1 = t0;
+    m_P : hm_slot m1 p = dP d;
+    m_Q : hm_slot m1 (negb p) = dQ d /\ (t0 = true -> lqb d = true)
+          \/ (t0 = true /\ lqb d = false /\ hm_slot m1 (negb p) = dP d)
+  }.
+
+  Lemma af_stored dA m1 primA : AF dA m1 primA ->
+    stored_sane (hget (d_hdr dA)) = true /\ stored_len (hget (d_hdr dA)) = d_len dA.
+  Proof. intros A. rewrite (af_len _ _ _ A). apply k_stored; [apply (af_geom _ _ _ A) | apply (af_lay _ _ _ A)]. Qed.
+
+  (* the slot recovery does not serve can never win later: invalid, older, or a copy *)
+  Lemma m_qsafe m1 vq : M1 m1 -> t0 = true ->
+    negb vq || (slot_txid (hm_slot m1 (negb p)) <? slot_txid (dP d)) || bytes_eqb (hm_slot m1 (negb p)) (dP d) = true.
+  Proof.
+    intros M Et. destruct (m_Q _ M) as [[E X] | (_ & _ & E)].
+    - rewrite E. specialize (X Et). unfold lqb in X. rewrite X. now rewrite orb_true_r.
+    - rewrite E, bytes_eqb_refl. now rewrite orb_true_r.
+  Qed.
+
+  (* ---- the quick path: begin_writable on the trusted primary ---- *)
+  Lemma rec_quick_ok a1 dA m1 :
+    a_st a1 = mkPst dA [] m1 false false -> forallb wrec_okb (a_ws a1) = true ->
+    AF dA m1 p -> M1 m1 -> t0 = true -> hm_prim m1 = p ->
+    forallb wrec_okb (a_ws (rec_quick a1 m1)) = true /\ p_open (a_st (rec_quick a1 m1)) = true
+    /\ Inv (a_st (rec_quick a1 m1)).
+  Proof.
+    intros Es Hw A M Et Ep.
+    set (a := a_mem a1 (set_rr m1 false) false false).
+    assert (Ea : a_st a = mkPst dA [] (set_rr m1 false) false false) by (unfold a, a_mem; rewrite Es; reflexivity).
+    assert (Ew : p_win (a_st a) = []) by (rewrite Ea; reflexivity).
+    assert (Wa : hm_wfb (p_mem (a_st a)) = true) by (rewrite Ea; exact (m_wf _ M)).
+    destruct (rr_step_eq a true (p_rfs (a_st a)) Ew Wa) as [W3 S3].
+    change (rec_quick a1 m1)
+      with (let m := set_rr (p_mem (a_st a)) true in
+            let a1' := a_issue a [hdr_write m] in
+            a_mem (a_sync a1' (d_same (a_st a1') m (d_vq (p_d (a_st a1'))) None)) m (p_rfs (a_st a)) true).
+    cbv zeta in W3, S3 |- *. rewrite W3, S3. clear W3 S3. rewrite Ea. cbn [p_d p_mem p_rfs].
+    change (a_ws a) with (a_ws a1).
+    set (mF := set_rr (set_rr m1 false) true).
+    assert (WF : hm_wfb mF = true) by exact (m_wf _ M).
+    pose proof (hm_wfb_wf _ WF) as WfF.
+    assert (EsP : hm_slot mF p = dP d) by exact (m_P _ M).
+    destruct (af_stored _ _ _ A) as [S1 S2].
+    assert (OK : window_okb dA (map abs ([] ++ [hdr_write mF])) true = true).
+    { apply rec_window; try apply A; auto.
+      - rewrite (af_geom _ _ _ A). symmetry. exact (m_geom _ M).
+      - rewrite (af_P _ _ _ A), (af_p _ _ _ A). symmetry. exact EsP.
+      - destruct r0 eqn:Er.
+        + left. split; [rewrite (af_r _ _ _ A); exact Er | reflexivity].
+        + right. repeat split; auto. rewrite (af_lay _ _ _ A). symmetry. exact (m_lay _ M).
+      - unfold rleaf. rewrite (af_t _ _ _ A), (af_prim _ _ _ A), (af_p _ _ _ A), Et. apply B_2pc.
+      - unfold rleaf. rewrite (af_p _ _ _ A). change (hm_2pc mF) with (hm_2pc m1). change (hm_prim mF) with (hm_prim m1).
+        rewrite (m_t _ M), Et, Ep. apply B_2pc. }
+    split; [|split; [reflexivity|]].
+    - rewrite forallb_app, Hw. cbn [forallb]. rewrite wrec_okb_mk, OK. reflexivity.
+    - assert (EPF : dP (mkDsum (enc_hdr mF) (d_len dA) (d_p dA) (d_rp dA) (d_vq dA) None) = dP d).
+      { unfold dP. cbn [d_hdr d_p]. rewrite (slot_enc _ _ WfF), (af_p _ _ _ A). exact EsP. }
+      assert (EQF : dQ (mkDsum (enc_hdr mF) (d_len dA) (d_p dA) (d_rp dA) (d_vq dA) None) = hm_slot m1 (negb p)).
+      { unfold dQ. cbn [d_hdr d_p]. rewrite (slot_enc _ _ WfF), (af_p _ _ _ A). reflexivity. }
+      constructor; cbn [p_d p_win p_mem p_rfs p_open].
+      + apply (enc_length _ WfF).
+      + unfold dh. cbn [p_d d_hdr]. apply magic_enc.
+      + exact WF.
+      + reflexivity.
+      + unfold dh. cbn [p_d d_hdr]. apply (geom_enc _ WfF).
+      + cbn [d_p]. rewrite (af_p _ _ _ A). symmetry. exact Ep.
+      + rewrite EPF. change (hm_slot mF (hm_prim mF)) with (hm_slot m1 (hm_prim m1)). rewrite Ep. symmetry. exact (m_P _ M).
+      + rewrite EQF. apply wfb_slot. exact (m_wf _ M).
+      + reflexivity.
+      + unfold qsafeb. rewrite EPF, EQF. cbn [d_vq]. apply m_qsafe; auto.
+      + reflexivity.
+      + reflexivity.
+      + cbn [d_len]. rewrite <- (b_len _ (af_basic _ _ _ A)). apply len_okb_ext. cbn [d_hdr].
+        rewrite (geom_enc _ WfF). change (hm_geom mF) with (hm_geom m1). rewrite (m_geom _ M). symmetry. exact (af_geom _ _ _ A).
+      + cbn [d_rp d_len]. exact (b_rp _ (af_basic _ _ _ A)).
+      + unfold cur_len. cbn [p_d p_win]. change (next_len _ (map abs [])) with (d_len dA). rewrite (af_len _ _ _ A).
+        change (hm_layout mF) with (hm_layout m1). rewrite (m_lay _ M).
+        apply k_lay; [exact WF | exact (m_geom _ M)].
+      + discriminate.
+  Qed.
+
+  (* ---- full repair: clear_recovery_required, the two flushes of the repair commit, begin_writable ---- *)
+  Lemma rec_full_ok a1 dA m1 primA m2 :
+    a_st a1 = mkPst dA [] m1 false false -> forallb wrec_okb (a_ws a1) = true ->
+    AF dA m1 primA -> M1 m1 -> (m2 = m1 \/ m2 = swap_prim m1) -> hm_prim m2 = p ->
+    rleaf dA t0 primA = true -> rleaf dA t0 p = true ->
+    (t0 = false -> rleafb false p p (d_vq dA) (lqb dA) (lpb dA) (sameb dA) false p = true) ->
+    let q := ro_q o in
+    forallb wrec_okb (a_ws (rec_full a1 m2 q (d_rp d))) = true /\ p_open (a_st (rec_full a1 m2 q (d_rp d))) = true
+    /\ Inv (a_st (rec_full a1 m2 q (d_rp d))).
+  Proof.
+    intros Es Hw A M Hm2 Ep L2a L2b L3 q.
+    destruct k_facts as (_ & _ & _ & _ & _ & _ & _ & Hq & Htx & _).
+    destruct (af_stored _ _ _ A) as [S1 S2].
+    (* the header records *)
+    assert (Sl2 : forall k, hm_slot m2 k = hm_slot m1 k) by (intros k; destruct Hm2 as [-> | ->]; reflexivity).
+    assert (W2 : hm_wfb m2 = true) by (destruct Hm2 as [-> | ->]; exact (m_wf _ M)).
+    assert (G2 : hm_geom m2 = geom_at g) by (destruct Hm2 as [-> | ->]; exact (m_geom _ M)).
+    assert (L2 : hm_layout m2 = L) by (destruct Hm2 as [-> | ->]; exact (m_lay _ M)).
+    assert (T2 : hm_2pc m2 = t0) by (destruct Hm2 as [-> | ->]; exact (m_t _ M)).
+    set (m3 := set_rr m2 false).
+    assert (W3 : hm_wfb m3 = true) by exact W2.
+    pose proof (hm_wfb_wf _ W3) as Wf3.
+    (* window 2: clear_recovery_required *)
+    set (a1' := a_mem a1 m2 false false).
+    assert (Ea : a_st a1' = mkPst dA [] m2 false false) by (unfold a1', a_mem; rewrite Es; reflexivity).
+    assert (Ew : p_win (a_st a1') = []) by (rewrite Ea; reflexivity).
+    assert (Wa : hm_wfb (p_mem (a_st a1')) = true) by (rewrite Ea; exact W2).
+    destruct (rr_step_eq a1' false false Ew Wa) as [Wn2 Sn2]. cbv zeta in Wn2, Sn2.
+    rewrite Ea in Wn2, Sn2. cbn [p_d p_mem] in Wn2, Sn2. change (a_ws a1') with (a_ws a1) in Wn2. fold m3 in Wn2, Sn2.
+    set (d3 := mkDsum (enc_hdr m3) (d_len dA) (d_p dA) (d_rp dA) (d_vq dA) None) in *.
+    set (a3 := a_mem (a_sync (a_issue a1' [hdr_write m3])
+                        (d_same (a_st (a_issue a1' [hdr_write m3])) m3 (d_vq (p_d (a_st (a_issue a1' [hdr_write m3])))) None))
+                     m3 false false) in *.
+    assert (OK2 : window_okb dA (map abs ([] ++ [hdr_write m3])) true = true).
+    { apply rec_window; try apply A; auto.
+      - rewrite (af_geom _ _ _ A). symmetry. exact G2.
+      - rewrite (af_P _ _ _ A), (af_p _ _ _ A). change (hm_slot m3 p) with (hm_slot m2 p). rewrite Sl2. symmetry. exact (m_P _ M).
+      - right. repeat split; auto. rewrite (af_lay _ _ _ A). symmetry. exact L2.
+      - rewrite (af_t _ _ _ A), (af_prim _ _ _ A). exact L2a.
+      - change (hm_2pc m3) with (hm_2pc m2). change (hm_prim m3) with (hm_prim m2). rewrite T2, Ep. exact L2b. }
+    (* the summary after it *)
+    assert (B3 : basic d3).
+    { apply (sumS_basic dA m3 (d_p dA) (d_rp dA) (d_vq dA) (af_basic _ _ _ A) W3).
+      - rewrite (af_geom _ _ _ A). symmetry. exact G2.
+      - exact (b_rp _ (af_basic _ _ _ A)). }
+    assert (P3 : dP d3 = dP d).
+    { unfold d3. rewrite (sumS_P m3 _ _ _ _ W3) || (unfold dP; cbn [d_hdr d_p]; rewrite (slot_enc _ _ Wf3)).
+      rewrite (af_p _ _ _ A). change (hm_slot m3 p) with (hm_slot m2 p). rewrite Sl2. exact (m_P _ M). }
+    assert (Q3 : dQ d3 = hm_slot m1 (negb p)).
+    { unfold dQ, d3. cbn [d_hdr d_p]. rewrite (slot_enc _ _ Wf3), (af_p _ _ _ A). change (hm_slot m3 (negb p)) with (hm_slot m2 (negb p)). apply Sl2. }
+    assert (St3 : stored_sane (hget (d_hdr d3)) = true /\ stored_len (hget (d_hdr d3)) = d_len d).
+    { apply k_stored; unfold d3; cbn [d_hdr]; [rewrite (geom_enc _ Wf3); exact G2 | rewrite (layout_enc _ Wf3); exact L2]. }
+    (* the repair commit *)
+    set (stC := mkPst d3 [] m3 false false) in *.
+    assert (E3 : a_st a3 = stC) by exact Sn2.
+    assert (Ec0 : cm0 stC None = m3) by reflexivity.
+    assert (Pm3 : hm_prim m3 = p) by exact Ep.
+    set (c1 := cm1 stC q None).
+    set (c2 := cm2 stC true q None).
+    assert (Wc1 : hm_wfb c1 = true) by (unfold c1, cm1; apply wfb_set_slot; [exact W3 | exact Hq]).
+    pose proof (hm_wfb_wf _ Wc1) as Wfc1.
+    assert (Wc2 : hm_wfb c2 = true) by exact Wc1.
+    pose proof (hm_wfb_wf _ Wc2) as Wfc2.
+    assert (Sc1p : hm_slot c1 p = dP d).
+    { unfold c1, cm1. rewrite Ec0, Pm3. rewrite <- (negb_involutive p) at 2. rewrite slot_set_other, negb_involutive.
+      change (hm_slot m3 p) with (hm_slot m2 p). rewrite Sl2. exact (m_P _ M). }
+    assert (Sc1q : hm_slot c1 (negb p) = q) by (unfold c1, cm1; rewrite Ec0, Pm3; apply slot_set_same).
+    assert (Gc1 : hm_geom c1 = geom_at g) by (unfold c1, cm1; rewrite geom_set_slot; exact G2).
+    assert (Lc1 : hm_layout c1 = L) by (unfold c1, cm1; rewrite lay_set_slot; exact L2).
+    assert (Tc1 : hm_2pc c1 = t0) by (unfold c1, cm1; rewrite Ec0; destruct (negb (hm_prim m3)); exact T2).
+    assert (Pc1 : hm_prim c1 = p) by (unfold c1, cm1; rewrite prim_set_slot; exact Pm3).
+    assert (Rc1 : hm_rr c1 = false) by (unfold c1, cm1; rewrite rr_set_slot; reflexivity).
+    destruct (run_commit_eq_acc a3 true q (d_rp d) [] None) as [Ec Ewc].
+    { rewrite E3. exact Wc1. } { reflexivity. }
+    rewrite E3 in Ec, Ewc.
+    assert (Ecur : cur_len stC = d_len d) by (unfold cur_len, stC; cbn [p_d p_win]; exact (af_len _ _ _ A)).
+    set (d4 := cd1 stC q (d_rp d) None) in *.
+    set (d5 := mkDsum (enc_hdr c2) (d_len d) (negb p) (d_rp d) true None).
+    assert (Ecp : commit_post stC true q (d_rp d) None = mkPst d5 [] c2 false false).
+    { unfold commit_post, d5. fold (cm0 stC None). fold (cm1 stC q None). fold (cm2 stC true q None). fold c2.
+      rewrite Ec0, Pm3, Ecur. reflexivity. }
+    (* window 3: the first flush *)
+    assert (L3' : rleaf d3 t0 p = true).
+    { unfold rleaf, lqb, lpb, sameb. rewrite P3, Q3. change (dgod d3) with (hm_god m3). unfold hm_god.
+      rewrite flag_2pc, flag_prim. change (hm_2pc m3) with (hm_2pc m2). change (hm_prim m3) with (hm_prim m2).
+      rewrite T2, Ep. unfold d3. cbn [d_p d_vq]. rewrite (af_p _ _ _ A).
+      pose proof (af_Q _ _ _ A) as AQ.
+      destruct t0 eqn:Et; [apply B_2pc|].
+      specialize (L3 eq_refl). unfold lqb, lpb, sameb in L3. rewrite (af_P _ _ _ A), (AQ eq_refl) in L3. exact L3. }
+    assert (OK3 : window_okb d3 (map abs ([] ++ [hdr_write c1])) true = true).
+    { apply rec_window; auto.
+      - unfold d3. cbn [d_hdr]. rewrite (geom_enc _ Wf3), Gc1. exact G2.
+      - rewrite P3. unfold d3. cbn [d_p]. rewrite (af_p _ _ _ A). symmetry. exact Sc1p.
+      - right. destruct St3 as [X Y]. split; [|split; [exact X|]].
+        + unfold d3. cbn [d_hdr]. rewrite (layout_enc _ Wf3), Lc1. exact L2.
+        + rewrite Y. unfold d3. cbn [d_len]. symmetry. exact (af_len _ _ _ A).
+      - change (dgod d3) with (hm_god m3). unfold hm_god. rewrite flag_2pc, flag_prim.
+        change (hm_2pc m3) with (hm_2pc m2). change (hm_prim m3) with (hm_prim m2). rewrite T2, Ep. exact L3'.
+      - rewrite Tc1, Pc1. exact L3'. }
+    (* window 4: the second flush *)
+    assert (Hltq : slot_txid (dP d) <? slot_txid q = true) by (apply N.ltb_lt; exact Htx).
+    assert (Hgeq : slot_txid q <? slot_txid (dP d) = false) by (apply N.ltb_ge; unfold q; lia).
+    assert (Hneq : bytes_eqb (dP d) q = false) by (apply txid_neq_bytes; unfold q; lia).
+    assert (Std4 : forall dd, d_hdr dd = enc_hdr c1 -> stored_sane (hget (d_hdr dd)) = true /\ stored_len (hget (d_hdr dd)) = d_len d).
+    { intros dd E. rewrite E. apply k_stored; [rewrite (geom_enc _ Wfc1); exact Gc1 | rewrite (layout_enc _ Wfc1); exact Lc1]. }
+    assert (OK4 : window_okb d4 (map abs ([] ++ [hdr_write c2])) true = true).
+    { unfold d4, cd1. fold c1. rewrite Ecur. change (hm_2pc (p_mem stC)) with (hm_2pc m2). rewrite T2.
+      change (d_p (p_d stC)) with (d_p dA). change (d_rp (p_d stC)) with (d_rp dA).
+      rewrite (af_p _ _ _ A), (af_rp _ _ _ A), Ec0, Pm3.
+      destruct t0 eqn:Et.
+      - (* the trusted primary stays in place until the god byte moves *)
+        set (dd := mkDsum (enc_hdr c1) (d_len d) p (d_rp d) true (Some (d_rp d))).
+        destruct (Std4 dd eq_refl) as [X Y].
+        assert (Bdd : basic dd).
+        { destruct B3 as [b1 b2 b3 b4 b5]. constructor; unfold dd; cbn [d_hdr d_len d_rp].
+          - apply (enc_length _ Wfc1).
+          - apply magic_enc.
+          - rewrite <- (af_len _ _ _ A). rewrite <- b3. apply len_okb_ext. cbn [d_hdr]. rewrite (geom_enc _ Wfc1), Gc1.
+            unfold d3. cbn [d_hdr]. rewrite (geom_enc _ Wf3). symmetry. exact G2.
+          - destruct k_facts as (_ & _ & _ & _ & _ & F6 & _). exact F6.
+          - unfold dQ. cbn [d_hdr d_p]. rewrite (slot_enc _ _ Wfc1). apply hm_wfb_versions. exact Wc1. }
+        apply (promote_window_yes dd c2 (d_rp d)); auto.
+        + destruct k_facts as (_ & _ & _ & _ & _ & F6 & _). exact F6.
+        + unfold dd, dgod. cbn [d_hdr]. rewrite god_enc. unfold hm_god. rewrite flag_2pc. exact Tc1.
+        + unfold names_q, dd, dgod. cbn [d_hdr d_p]. rewrite god_enc. unfold hm_god. rewrite flag_prim, Pc1. apply xorb_nilpotent.
+        + unfold dd. cbn [d_hdr]. rewrite (geom_enc _ Wfc1). reflexivity.
+        + unfold dP, dd. cbn [d_hdr d_p]. rewrite (slot_enc _ _ Wfc1). reflexivity.
+        + unfold dQ, dd. cbn [d_hdr d_p]. rewrite (slot_enc _ _ Wfc1). reflexivity.
+        + unfold dd. cbn [d_hdr]. rewrite (layout_enc _ Wfc1). reflexivity.
+      - (* a 1PC primary does not shadow the newer, complete secondary: it is served already *)
+        set (dd := mkDsum (enc_hdr c1) (d_len d) (negb p) (d_rp d) true None).
+        destruct (Std4 dd eq_refl) as [X Y].
+        assert (Bdd : basic dd).
+        { change dd with (sumS c1 (d_len d) (negb p) (d_rp d) true). rewrite <- (af_len _ _ _ A).
+          change (d_len dA) with (d_len d3). apply (sumS_basic d3); auto.
+          - unfold d3. cbn [d_hdr]. rewrite (geom_enc _ Wf3), Gc1. exact G2.
+          - unfold d3. cbn [d_len]. rewrite (af_len _ _ _ A). destruct k_facts as (_ & _ & _ & _ & _ & F6 & _). exact F6. }
+        destruct (B_commit_1pc p) as [C1 C2].
+        assert (Ebool : rleaf dd = rleafb false p (negb p) true true false false).
+        { unfold rleaf, lqb, lpb, sameb, dd, dgod, dP, dQ. cbn [d_hdr d_p d_vq]. rewrite god_enc. unfold hm_god.
+          rewrite flag_2pc, flag_prim, Tc1, Pc1, !(slot_enc _ _ Wfc1), negb_involutive, Sc1p, Sc1q, Hltq, Hgeq, Hneq.
+          reflexivity. }
+        apply rec_window; auto.
+        + unfold dd. cbn [d_hdr]. rewrite (geom_enc _ Wfc1). reflexivity.
+        + unfold dP, dd. cbn [d_hdr d_p]. rewrite (slot_enc _ _ Wfc1). reflexivity.
+        + right. repeat split; auto. unfold dd. cbn [d_hdr]. rewrite (layout_enc _ Wfc1). reflexivity.
+        + rewrite Ebool. unfold dd, dgod. cbn [d_hdr]. rewrite god_enc. unfold hm_god. rewrite flag_2pc, flag_prim, Tc1, Pc1. exact C1.
+        + rewrite Ebool. change (hm_2pc c2) with true. change (hm_prim c2) with (negb (hm_prim c1)). rewrite Pc1. exact C2. }
+    (* window 5: begin_writable *)
+    set (b4 := run_commit a3 true q (d_rp d) [] None) in *.
+    rewrite Ecp in Ec.
+    assert (Ew4 : p_win (a_st b4) = []) by (rewrite Ec; reflexivity).
+    assert (Wa4 : hm_wfb (p_mem (a_st b4)) = true) by (rewrite Ec; exact Wc2).
+    destruct (rr_step_eq b4 true (p_rfs (a_st b4)) Ew4 Wa4) as [Wn5 Sn5]. cbv zeta in Wn5, Sn5.
+    change (rec_full a1 m2 q (d_rp d))
+      with (let m := set_rr (p_mem (a_st b4)) true in
+            let a1'' := a_issue b4 [hdr_write m] in
+            a_mem (a_sync a1'' (d_same (a_st a1'') m (d_vq (p_d (a_st a1''))) None)) m (p_rfs (a_st b4)) true).
+    cbv zeta. rewrite Wn5, Sn5. clear Wn5 Sn5. rewrite Ec. cbn [p_d p_mem p_rfs]. rewrite Ewc, Wn2.
+    set (mF := set_rr c2 true).
+    assert (WF : hm_wfb mF = true) by exact Wc2.
+    pose proof (hm_wfb_wf _ WF) as WfF.
+    assert (Gc2 : hm_geom c2 = geom_at g) by exact Gc1.
+    assert (Lc2 : hm_layout c2 = L) by exact Lc1.
+    assert (Pc2 : hm_prim c2 = negb p) by (change (hm_prim c2) with (negb (hm_prim c1)); now rewrite Pc1).
+    assert (B5 : basic d5).
+    { change d5 with (sumS c2 (d_len d) (negb p) (d_rp d) true). rewrite <- (af_len _ _ _ A).
+      change (d_len dA) with (d_len d3). apply (sumS_basic d3); auto.
+      - unfold d3. cbn [d_hdr]. rewrite (geom_enc _ Wf3), Gc2. exact G2.
+      - unfold d3. cbn [d_len]. rewrite (af_len _ _ _ A). destruct k_facts as (_ & _ & _ & _ & _ & F6 & _). exact F6. }
+    assert (St5 : stored_sane (hget (d_hdr d5)) = true /\ stored_len (hget (d_hdr d5)) = d_len d).
+    { apply k_stored; unfold d5; cbn [d_hdr]; [rewrite (geom_enc _ Wfc2); exact Gc2 | rewrite (layout_enc _ Wfc2); exact Lc2]. }
+    assert (OK5 : window_okb d5 (map abs ([] ++ [hdr_write mF])) true = true).
+    { destruct St5 as [X Y]. apply rec_window; auto.
+      - unfold d5. cbn [d_hdr]. rewrite (geom_enc _ Wfc2). reflexivity.
+      - unfold dP, d5. cbn [d_hdr d_p]. rewrite (slot_enc _ _ Wfc2). reflexivity.
+      - right. split; [|split; [exact X | exact Y]]. unfold d5. cbn [d_hdr]. rewrite (layout_enc _ Wfc2). reflexivity.
+      - unfold rleaf. change (dgod d5) with (hm_god c2). unfold hm_god. rewrite flag_2pc, flag_prim, Pc2.
+        change (hm_2pc c2) with true. cbn [d5 d_p]. apply B_2pc.
+      - unfold rleaf. change (hm_2pc mF) with true. change (hm_prim mF) with (hm_prim c2). rewrite Pc2. cbn [d5 d_p]. apply B_2pc. }
+    split; [|split; [reflexivity|]].
+    - rewrite !forallb_app, Hw. unfold commit_windows. cbn [forallb]. rewrite !wrec_okb_mk.
+      change (p_d stC) with d3. change (p_win stC ++ page_writes [] ++ [hdr_write (cm1 stC q None)]) with ([] ++ [hdr_write c1]).
+      fold d4. fold c2. rewrite OK2, OK3, OK4, OK5. reflexivity.
+    - assert (EPF : dP (mkDsum (enc_hdr mF) (d_len d5) (d_p d5) (d_rp d5) (d_vq d5) None) = q).
+      { unfold dP. cbn [d_hdr d_p d5]. rewrite (slot_enc _ _ WfF). exact Sc1q. }
+      assert (EQF : dQ (mkDsum (enc_hdr mF) (d_len d5) (d_p d5) (d_rp d5) (d_vq d5) None) = dP d).
+      { unfold dQ. cbn [d_hdr d_p d5]. rewrite (slot_enc _ _ WfF), negb_involutive. exact Sc1p. }
+      constructor; cbn [p_d p_win p_mem p_rfs p_open].
+      + apply (enc_length _ WfF).
+      + unfold dh. cbn [p_d d_hdr]. apply magic_enc.
+      + exact WF.
+      + reflexivity.
+      + unfold dh. cbn [p_d d_hdr]. apply (geom_enc _ WfF).
+      + cbn [d_p d5]. symmetry. exact Pc2.
+      + rewrite EPF. change (hm_slot mF (hm_prim mF)) with (hm_slot c1 (hm_prim c2)). rewrite Pc2. symmetry. exact Sc1q.
+      + rewrite EQF. destruct k_facts as (_ & _ & F3 & _). exact F3.
+      + reflexivity.
+      + unfold qsafeb. rewrite EPF, EQF. cbn [d_vq d5]. rewrite Hltq. reflexivity.
+      + reflexivity.
+      + reflexivity.
+      + cbn [d_len]. rewrite <- (b_len _ B5). apply len_okb_ext. cbn [d_hdr d5]. now rewrite (geom_enc _ WfF), (geom_enc _ Wfc2).
+      + cbn [d_rp d_len]. exact (b_rp _ B5).
+      + unfold cur_len. cbn [p_d p_win]. change (next_len _ (map abs [])) with (d_len d5). cbn [d5 d_len].
+        change (hm_layout mF) with (hm_layout c2). rewrite Lc2. apply k_lay; [exact WF | exact Gc2].
+      + discriminate.
+  Qed.
+
+  (* ---- TransactionalMemory::new: the repaired header is written first ---- *)
+  Lemma k_fin m1 :
+    M1 m1 -> rleaf d t0 p0 = true -> rleaf d t0 (hm_prim m1) = true ->
+    exists dA primA,
+      a_st (rec_finalize d m1 r0) = mkPst dA [] m1 false false
+      /\ forallb wrec_okb (a_ws (rec_finalize d m1 r0)) = true
+      /\ AF dA m1 primA
+      /\ (primA = if r0 then hm_prim m1 else p0)
+      /\ (t0 = false -> d_vq dA = d_vq d /\ lqb dA = lqb d /\ lpb dA = lpb d /\ sameb dA = sameb d).
+  Proof.
+    intros M La Lb. pose proof k_basic as B. destruct k_facts as (_ & _ & _ & _ & _ & F6 & F7 & _).
+    pose proof (hm_wfb_wf _ (m_wf _ M)) as Wf1.
+    unfold rec_finalize. destruct r0 eqn:Er.
+    - (* recovery required: one header write, one sync *)
+      set (vq1 := if negb (bytes_eqb (hm_slot m1 (negb p)) (dQ d)) then true else d_vq d).
+      set (d1 := mkDsum (enc_hdr m1) (d_len d) p (d_rp d) vq1 None).
+      exists d1, (hm_prim m1).
+      assert (Ecur : cur_len (a_st (a_issue (a_start (mkPst d [] m1 false false)) [hdr_write m1])) = d_len d).
+      { unfold a_issue, a_start. cbn [a_st p_d p_win p_mem p_rfs p_open]. apply (cur_len_one_hdr _ _ _ _ _ Wf1). }
+      split; [|split; [|split; [|split]]].
+      + unfold a_sync, d_same. rewrite Ecur. reflexivity.
+      + unfold a_sync, a_issue, a_start. cbn [a_ws a_st p_d p_win app forallb]. rewrite wrec_okb_mk.
+        change (window_okb d (map abs ([] ++ [hdr_write m1])) true && true = true). rewrite andb_true_r.
+        apply rec_window; [exact B | exact F7 | exact (m_wf _ M) | symmetry; exact (m_geom _ M)
+                          | symmetry; exact (m_P _ M) | | exact La | rewrite (m_t _ M); exact Lb].
+        left. split; [exact Er | rewrite (m_rr _ M); exact Er].
+      + constructor; unfold d1; cbn [d_rq d_len d_p d_rp d_hdr].
+        * apply (sumS_basic d m1 p (d_rp d) vq1 B (m_wf _ M)); [symmetry; exact (m_geom _ M) | exact F6].
+        * reflexivity.
+        * reflexivity.
+        * reflexivity.
+        * reflexivity.
+        * rewrite (geom_enc _ Wf1). exact (m_geom _ M).
+        * rewrite (layout_enc _ Wf1). exact (m_lay _ M).
+        * unfold dP. cbn [d_hdr d_p]. rewrite (slot_enc _ _ Wf1). exact (m_P _ M).
+        * intros _. unfold dQ. cbn [d_hdr d_p]. apply (slot_enc _ _ Wf1).
+        * unfold dgod. cbn [d_hdr]. rewrite god_enc. unfold hm_god. rewrite flag_2pc. exact (m_t _ M).
+        * unfold dgod. cbn [d_hdr]. rewrite god_enc. unfold hm_god. rewrite flag_rr, (m_rr _ M). reflexivity.
+        * unfold dgod. cbn [d_hdr]. rewrite god_enc. unfold hm_god. now rewrite flag_prim.
+      + reflexivity.
+      + intros Et. destruct (m_Q _ M) as [[EQ _] | (X & _)]; [|congruence].
+        assert (EP1 : dP d1 = dP d) by (unfold dP, d1; cbn [d_hdr d_p]; rewrite (slot_enc _ _ Wf1); exact (m_P _ M)).
+        assert (EQ1 : dQ d1 = dQ d) by (unfold dQ, d1; cbn [d_hdr d_p]; rewrite (slot_enc _ _ Wf1); exact EQ).
+        unfold lqb, lpb, sameb. rewrite EP1, EQ1. repeat split; auto.
+        unfold d1, vq1. cbn [d_vq]. now rewrite EQ, bytes_eqb_refl.
+    - (* a clean image: nothing is written here *)
+      exists d, p0. split; [reflexivity|]. split; [reflexivity|]. split; [|split; [reflexivity|intros _; auto]].
+      constructor; auto.
+      + rewrite Er. reflexivity.
+      + intros Et. destruct (m_Q _ M) as [[EQ _] | (X & _)]; [|congruence]. unfold dQ in EQ |- *. symmetry. exact EQ.
+  Qed.
+
+  (* ---- every window of a recovery run is accepted, and it ends in a state of the protocol ---- *)
+  Theorem recovery_ok a :
+    recovery_run d o = Some a ->
+    forallb wrec_okb (a_ws a) = true /\ Inv (a_st a) /\ p_open (a_st a) = true.
+  Proof.
+    intros E. unfold recovery_run in E.
+    destruct k_facts as (_ & _ & _ & _ & _ & _ & _ & _ & _ & F10 & F11 & F12).
+    change (hm_rr m0) with r0 in E. change (hm_prim m0) with p0 in E.
+    assert (Eg : negb r0 && negb (stored_len g =? d_len d) = false).
+    { destruct r0; [reflexivity|]. destruct F10 as [_ X]. now rewrite X, N.eqb_refl. }
+    rewrite Eg in E.
+    destruct (select_primary m0' (if Bool.eqb p0 p then true else d_vq d)
+                             (if Bool.eqb (negb p0) p then true else d_vq d)) as [m1|] eqn:Es; [|discriminate].
+    destruct (k_sel m1 Es) as (Sb & K1 & K2 & K3 & K4 & K5 & K6 & K7).
+    assert (M : M1 m1) by (constructor; auto).
+    pose proof (cons_of d) as Cons.
+    assert (Hsame : sameb d = true -> p = p0).
+    { unfold sameb. intros X. apply bytes_eqb_eq in X. apply F11. now symmetry. }
+    (* the slot-selection leaves of every window, from the abstract booleans *)
+    assert (Leaves :
+      rleaf d t0 p0 = true /\ rleaf d t0 (hm_prim m1) = true
+      /\ (t0 = true -> hm_prim m1 = p /\ p0 = p)
+      /\ (t0 = false ->
+          rleafb false p0 p (d_vq d) (lqb d) (lpb d) (sameb d) false p = true
+          /\ rleafb false (hm_prim m1) p (d_vq d) (lqb d) (lpb d) (sameb d) false (hm_prim m1) = true
+          /\ rleafb false (hm_prim m1) p (d_vq d) (lqb d) (lpb d) (sameb d) false p = true
+          /\ rleafb false p p (d_vq d) (lqb d) (lpb d) (sameb d) false p = true)).
+    { unfold rleaf. destruct t0 eqn:Et.
+      - specialize (F12 eq_refl). unfold sel_primb in Sb. rewrite <- F12, eqb_reflx in Sb. injection Sb as Sb.
+        rewrite <- Sb, <- F12. split; [apply B_2pc|]. split; [apply B_2pc|].
+        split; [intros _; split; reflexivity | intros X; discriminate X].
+      - destruct (B_1pc p0 p (d_vq d) (lqb d) (lpb d) (sameb d) (hm_prim m1) Cons Hsame Sb) as (B1 & B2 & B3 & B4 & B5 & B6).
+        split; [exact B1|]. split; [exact B2|]. split; [intros X; discriminate X|].
+        intros _. repeat split; assumption. }
+    destruct Leaves as (La & Lb & L2pc & L1pc).
+    destruct (k_fin m1 M La Lb) as (dA & primA & Ea1 & Wa1 & A & EprimA & Ebool).
+    change (hm_rr m0) with r0 in E.
+    set (a1 := rec_finalize d m1 r0) in *.
+    rewrite K5 in E.
+    destruct (t0 && ro_quick o) eqn:Equick.
+    - (* quick path *)
+      apply andb_true_iff in Equick as [Et _]. destruct (L2pc Et) as [Ep1 Ep0].
+      injection E as <-.
+      assert (A' : AF dA m1 p).
+      { replace p with primA; [exact A|]. rewrite EprimA. destruct r0; [exact Ep1 | exact Ep0]. }
+      destruct (rec_quick_ok a1 dA m1 Ea1 Wa1 A' M Et Ep1) as (W & O & J).
+      split; [exact W | split; [exact J | exact O]].
+    - (* full repair *)
+      assert (Lfull : forall m2, (m2 = m1 \/ m2 = swap_prim m1) -> hm_prim m2 = p ->
+                forallb wrec_okb (a_ws (rec_full a1 m2 (ro_q o) (d_rp d))) = true
+                /\ p_open (a_st (rec_full a1 m2 (ro_q o) (d_rp d))) = true
+                /\ Inv (a_st (rec_full a1 m2 (ro_q o) (d_rp d)))).
+      { intros m2 Hm2 Ep2. apply (rec_full_ok a1 dA m1 primA m2); auto.
+        - unfold rleaf. rewrite (af_t _ _ _ A), (af_prim _ _ _ A), (af_p _ _ _ A).
+          destruct t0 eqn:Et.
+          + destruct (L2pc eq_refl) as [Ep1 Ep0]. replace primA with p; [apply B_2pc|].
+            rewrite EprimA. destruct r0; [symmetry; exact Ep1 | symmetry; exact Ep0].
+          + destruct (Ebool eq_refl) as (V1 & V2 & V3 & V4). destruct (L1pc eq_refl) as (B3 & B4 & B5 & B6).
+            rewrite V1, V2, V3, V4, EprimA. destruct r0; [exact B4|].
+            unfold rleaf in La. rewrite Et in La. exact La.
+        - unfold rleaf. rewrite (af_t _ _ _ A), (af_prim _ _ _ A), (af_p _ _ _ A).
+          destruct t0 eqn:Et; [apply B_2pc|].
+          destruct (Ebool eq_refl) as (V1 & V2 & V3 & V4). destruct (L1pc eq_refl) as (B3 & B4 & B5 & B6).
+          rewrite V1, V2, V3, V4, EprimA. destruct r0; [exact B5 | exact B3].
+        - intros Et. destruct (Ebool Et) as (V1 & V2 & V3 & V4). destruct (L1pc Et) as (B3 & B4 & B5 & B6).
+          rewrite V1, V2, V3, V4. exact B6. }
+      destruct (Bool.eqb (hm_prim m1) p) eqn:Ep1.
+      + apply Bool.eqb_prop in Ep1. injection E as <-.
+        destruct (Lfull m1 (or_introl eq_refl) Ep1) as (W & O & J). split; [exact W | split; [exact J | exact O]].
+      + destruct t0 eqn:Et; [discriminate|]. injection E as <-.
+        assert (Ep2 : hm_prim (swap_prim m1) = p).
+        { cbn [swap_prim hm_prim]. rewrite (eqb_false_negb _ _ Ep1). apply negb_involutive. }
+        destruct (Lfull (swap_prim m1) (or_intror eq_refl) Ep2) as (W & O & J). split; [exact W | split; [exact J | exact O]].
+  Qed.
+End Rec.
+
+(* what a truthful summary offers by itself *)
+Lemma image_ok_rec_hdr H expect ps d D :
+  image_ok H expect ps d D ->
+  (dP d = dQ d -> d_p d = flag (dgod d) PRIMARY_BIT) ->
+  rec_hdr_okb d = true.
+Proof.
+  intros [Hhl Hhdr Hlen HPc HPv HPcov Hvq Hrq Hrec] Hcanon.
+  destruct (recover_Some_inv H expect ps D _ Hrec) as (R0 & R1 & R2 & R3 & R4 & R5 & R6).
+  assert (EDm : magic_at (iat D) = magic_at (hget (d_hdr d)))
+    by (apply rd_ext; intros i Hi; apply Hhdr; now apply magic_in_hdr).
+  assert (EDs : forall k, slot_at (iat D) k = slot_at (hget (d_hdr d)) k)
+    by (intros k; apply rd_ext; intros i Hi; apply Hhdr; eapply slot_in_hdr; eauto).
+  assert (EDgod : god (iat D) = dgod d) by (apply Hhdr; apply god_in_hdr).
+  assert (Vs : forall k, slot_wfb (slot_at (hget (d_hdr d)) k) = true).
+  { intros k. apply slot_wfb_spec. split; [unfold slot_at; apply rd_length|].
+    rewrite <- EDs. destruct k; auto. }
+  unfold rec_hdr_okb. rewrite Hhl, Nat.eqb_refl, <- EDm, R1, bytes_eqb_refl. unfold dP, dQ. rewrite !Vs. cbn [andb].
+  change (hm_2pc (parse_hdr (d_hdr d))) with (flag (dgod d) TWO_PHASE_COMMIT).
+  change (hm_prim (parse_hdr (d_hdr d))) with (flag (dgod d) PRIMARY_BIT).
+  destruct (flag (dgod d) TWO_PHASE_COMMIT) eqn:Et; [|reflexivity]. cbn [negb orb].
+  assert (EselD : select H (dgod d) (if d_p d then dQ d else dP d) (if d_p d then dP d else dQ d) (ver expect D)
+                  = Some (dP d)).
+  { rewrite <- R6, EDgod, !EDs. unfold dP, dQ. destruct (d_p d); reflexivity. }
+  rewrite (select_char H _ _ _ _ _ HPc HPv), Et in EselD.
+  destruct (xorb (flag (dgod d) PRIMARY_BIT) (d_p d)) eqn:Ex.
+  - destruct (cks_ok H (dQ d) && ver expect D (dQ d)); [|discriminate].
+    assert (E : dQ d = dP d) by congruence.
+    rewrite (Hcanon (eq_sym E)) in Ex. rewrite xorb_nilpotent in Ex. discriminate.
+  - apply xorb_eq in Ex. rewrite Ex. apply eqb_reflx.
+Qed.
+
+(* the windows of a recovery run on any truthful summary *)
+Theorem recovery_windows_ok_sem H expect ps d D o a :
+  image_ok H expect ps d D -> rec_side_okb d o = true -> recovery_run d o = Some a ->
+  forallb wrec_okb (a_ws a) = true /\ Inv (a_st a) /\ p_open (a_st a) = true.
+Proof.
+  intros IO Hs E. apply (recovery_ok d o); auto. unfold rec_okb. rewrite Hs, andb_true_r.
+  apply (image_ok_rec_hdr H expect ps d D IO).
+  unfold rec_side_okb in Hs. rewrite !andb_true_iff in Hs. destruct Hs as (_ & X).
+  intros Eq. apply orb_true_iff in X as [X | X].
+  - apply negb_true_iff, bytes_eqb_neq in X. contradiction.
+  - now apply Bool.eqb_prop in X.
+Qed.
+
 (* ---------- boolean forms for Props/C01.v ---------- *)
 
 Theorem protocol_windows_ok_b st ss :
